@@ -204,6 +204,10 @@ zckRange ZCK_PUBLIC_API *zck_get_missing_range(zckCtx *zck, int max_ranges) {
         if(chk->valid)
             continue;
 
+        /* A zero-length chunk has no bytes to request */
+        if(chk->comp_length == 0)
+            continue;
+
         if(!range_add(range, chk, zck)) {
             zck_range_free(&range);
             return NULL;
